@@ -224,8 +224,13 @@ C13-nested-pop-takes-callee-signature).  Proved here: the binder is a definition
 (`C13_binder_is_definition`), agreement for the parameters of the visited signature — shadowing, the child's type and
 default win on both sides (`C13_binder_own`), and agreement under the explicit decidable hypothesis `defsAgree P n`
 (every definition of the name in the program carries the same annotation and default: `C13_type_default_partial`).
-The remaining class — a name defined with DIFFERENT signatures at several places of one call chain, none of them the
-visited signature — is compared on every generated program by the harness (model `binder` vs the traced interpreter). -/
+`C13_type_default_exact` replaces `defsAgree` by the exact complement: the decidable `typeDefaultDiffers P c n`, computed
+from the two independent definitions (`resolve`, `binder`); it is a restatement (no induction), it makes the remaining
+class — a name defined with DIFFERENT signatures at several places of one call chain, none of them the visited signature —
+decidable per program: the diamond is decided below (`defsAgree` fails there, the signatures still agree), the nested pop
+is its positive instance.  The structural theorem "differs ⇒ the binder is a pop nested in an argument list" (the second
+induction over frames) is NOT proved; the harness compares model `binder`, traced interpreter and offered parameter on
+every generated program. -/
 
 /-- whatever binds `n=` at run time is a definition of the program called `n`, and the call is accepted -/
 theorem C13_binder_is_definition (P : Prog) (c : CId) (n : String) (q : Param) (h : binder P c n = some q) :
@@ -257,6 +262,23 @@ theorem C13_type_default_partial (P : Prog) (c : CId) (p q : Param) (hp : p ∈ 
   · rw [hnc] at hc; cases hc
   · have := defsAgree_eq hA hq hd hqn hdn
     exact ⟨this.1.trans hdt, this.2.trans hdd⟩
+
+
+/-- Exact complement: an offered parameter has the annotation and default of its run-time binder iff the decidable
+    `typeDefaultDiffers` is false — for EVERY program (definitional: both sides are computed from `resolve` / `binder`). -/
+theorem C13_type_default_exact (P : Prog) (c : CId) (n : String) :
+    typeDefaultDiffers P c n = false ↔
+      ∀ p ∈ resolve P c, p.name = n → ∀ q, binder P c n = some q → q.ty = p.ty ∧ q.dflt = p.dflt :=
+  typeDefaultDiffers_false
+
+/-- `defsAgree` is one sufficient condition for it (the old partial theorem as a corollary) -/
+theorem C13_type_default_of_defsAgree (P : Prog) (c : CId) (n : String)
+    (hnc : ∀ p ∈ resolve P c, p.name = n → p.dflt.isCond = false) (hA : defsAgree P n = true) :
+    typeDefaultDiffers P c n = false := by
+  rw [C13_type_default_exact]
+  intro p hp hn q hb
+  subst hn
+  exact C13_type_default_partial P c p q hp (hnc p hp rfl) hA hb
 
 /-! ### tie: the statements of `_parameter_resolvers.py` that the model transcribes (regenerated into `Gen/ResolverSites.lean`) -/
 
@@ -500,6 +522,13 @@ theorem type_default_full_fails_nested_pop :
     WfProg progNestedPop = true ∧ ko "f" "str" "x" ∈ resolve progNestedPop (.entry 1) ∧
     binder progNestedPop (.entry 1) "f" = some (popParam "f" (dv "x")) ∧
     (popParam "f" (dv "x")).ty ≠ (ko "f" "str" "x").ty := by decide
+
+/-- the diamond case, decided: `b` has two different definitions on the chain (`defsAgree` is false), none of them the
+    visited signature, and the offered parameter still is the one that binds — for every name of the program -/
+example : defsAgree diamond "b" = false ∧
+    ∀ n ∈ ["a", "z", "b", "c", "d", "nope"], typeDefaultDiffers diamond (.entry 3) n = false := by decide
+/-- … and `typeDefaultDiffers` is not vacuous: the nested pop is its instance -/
+example : typeDefaultDiffers progNestedPop (.entry 1) "f" = true ∧ typeDefaultDiffers progNestedPop (.entry 1) "e" = false := by decide
 
 /-- #14b: `extra = kwargs.get('extra', 5); super().__init__(**kwargs)` -/
 def progGet : Prog := ⟨[base,
